@@ -37,7 +37,20 @@ def main():
     A = Tensor.from_dok({(0, 1): 2.0, (1, 0): 3.0, (1, 2): 1.0}, dimensions=(2, 3), format="ds")
     # E has a support disjoint from A's, so a product with it gives a compressed result with NO stored coordinate
     E = Tensor.from_dok({(0, 0): 5.0}, dimensions=(2, 3), format="ss")
-    FMT = {"sparse": "ss", "dense": "dd", "scalar": "", "empty": "ss", "empty_ds": "ds"}
+    FMT = {"sparse": "ss", "dense": "dd", "scalar": "", "empty": "ss", "empty_ds": "ds", "direct": "ss", "direct_dense": "dd"}
+
+    def run_direct(text, out_fmt, inputs):
+        """A TensorMethod built directly from a Problem whose formats are NOT in target-first order (legal API; only
+        make_problem puts the target first)."""
+        from tensora.compile import TensorMethod
+        from tensora.expression import parse_assignment
+        from tensora.format import parse_format
+        from tensora.problem import Problem
+
+        asg = parse_assignment(text).unwrap()
+        fm = {n: t.format for n, t in inputs.items()}
+        fm[asg.target.name] = parse_format(out_fmt).unwrap()  # target last
+        return TensorMethod(Problem(asg, fm))(**inputs)
     names = {}      # name -> python object (Tensor or cffi struct)
     arrays = {}     # object id -> [addresses]
 
@@ -77,11 +90,20 @@ def main():
                 lib.verif_capture(1)
                 try:
                     extra = {"E": E} if req["kind"] in ("empty", "empty_ds") else {}
+                    direct = req["kind"].startswith("direct")
+                    okind = {"direct": "sparse", "direct_dense": "dense"}.get(req["kind"], req["kind"])
                     if src is None:
-                        res = evaluate(expression(None, req["kind"]), FMT[req["kind"]], A=A, **extra)
+                        if direct:
+                            res = run_direct(expression(None, okind), FMT[req["kind"]], {"A": A})
+                        else:
+                            res = evaluate(expression(None, okind), FMT[req["kind"]], A=A, **extra)
                     else:
                         x = names[src]
-                        res = evaluate(expression(req["in_kind"], req["kind"]), FMT[req["kind"]], A=A, x=x, **extra)
+                        if direct:
+                            # the fed tensor comes FIRST among the parameters
+                            res = run_direct(expression(req["in_kind"], okind), FMT[req["kind"]], {"x": x, "A": A})
+                        else:
+                            res = evaluate(expression(req["in_kind"], okind), FMT[req["kind"]], A=A, x=x, **extra)
                         del x
                 finally:
                     lib.verif_capture(0)
